@@ -58,7 +58,9 @@ class Interp(Engine):
         for p in params + kwonly:
             if p not in env:
                 raise PyRaise('TypeError', f'{fnode.name}() missing required argument {p!r}')
-        return env
+        order = params + ([a.vararg.arg] if a.vararg is not None else []) + kwonly + \
+            ([a.kwarg.arg] if a.kwarg is not None else [])
+        return {p: env[p] for p in order}
 
     def run_function(self, fv, args, kwargs):
         """symbolically execute repo function fv (FuncV 'repo') on engine values"""
@@ -156,6 +158,16 @@ class Interp(Engine):
     def st_For(self, s, env):
         it = self.eval(s.iter, env)
         plan = self.iter_plan(it)
+        if plan[0] == 'concrete' and isinstance(it, RangeV) and len(plan[1]) >= 3 and not s.orelse:
+            # long concrete ranges are summarised like symbolic ones (avoids 2^n paths); fall back to unrolling
+            saved = (list(self.pc), list(self.scopes[-1].decisions), self.scopes[-1].ptr, list(self.scopes[-1].pending))
+            try:
+                a = self.as_int(it.start)
+                self.symbolic_loop(s.target, s.body, z3.IntVal(len(plan[1])), lambda i: SV(a + i, 'int'), env)
+                return
+            except Undecided:
+                self.pc = saved[0]
+                self.scopes[-1].decisions, self.scopes[-1].ptr, self.scopes[-1].pending = saved[1], saved[2], saved[3]
         if plan[0] == 'concrete':
             for v in plan[1]:
                 self.assign(s.target, v, env)
@@ -1233,6 +1245,10 @@ class Interp(Engine):
                 n = base.zlen()
                 if isinstance(idx, int) and idx < 0:
                     iz = n + idx
+                elif not isinstance(idx, int) and self.sat(iz < 0) != z3.unsat:
+                    # python semantics: negative indices count from the end
+                    if self.branch(iz < 0):
+                        iz = n + iz
                 if self.sat(z3.Or(iz < 0, iz >= n)) != z3.unsat:
                     if self.branch(z3.Or(iz < 0, iz >= n)):
                         raise PyRaise('IndexError')
@@ -1298,10 +1314,13 @@ class Interp(Engine):
         self.scopes.append(sc)
         loop = LoopCtx(xv, z3.IntVal(0), next(_counter))
         self.loops.append(loop)
+        tbl = ix = None
         try:
             self.pc.append(self.seq_mem(s, xv))
             self.assign(target, SV(xv, 'int'), env2)
-            v = self.eval(elt, env2)
+            if isinstance(elt, ast.Subscript):
+                tbl = self.eval(elt.value, env2)
+                ix = self.eval_index(elt.slice, env2)
         except (Undecided, PyRaise):
             return
         finally:
@@ -1311,16 +1330,17 @@ class Interp(Engine):
             self.pc = saved_pc
         if sc.pending or extra:
             return
-        if isinstance(v, SV) and v.app is not None and v.app[0] == 'elem':
-            tbl, ix = v.app[1]
-            if isinstance(tbl, SeqV) and tbl.inv is not None and \
-                    z3.eq(z3.simplify(self.as_int(ix) - xv), z3.IntVal(0)):
-                def mem(y, tbl=tbl, s=s):
-                    j = tbl.inv(y)
-                    return z3.And(j >= 0, j < tbl.zlen(), self.seq_mem(s, j),
-                                  self.elem_z(tbl, self.seq_elem(tbl, j)) == y)
-                res.mem = mem
-                res.esort = tbl.esort
+        if isinstance(tbl, SeqV) and tbl.inv is not None and isinstance(ix, SV) and ix.kind == 'int' and \
+                z3.eq(z3.simplify(ix.z - xv), z3.IntVal(0)):
+            tb = lst_copy(tbl)   # snapshot: later in-place shuffles of the table must not leak in
+
+            def mem(y, tbl=tb, s=s):
+                # python index semantics: position j is addressed by index j and by index j - len
+                j = tbl.inv(y)
+                return z3.And(j >= 0, j < tbl.zlen(), z3.Or(self.seq_mem(s, j), self.seq_mem(s, j - tbl.zlen())),
+                              self.elem_z(tbl, self.seq_elem(tbl, j)) == y)
+            res.mem = mem
+            res.esort = tbl.esort
 
     def _concrete_comp(self, e, env):
         out = []
